@@ -133,3 +133,12 @@ def _idx_of(ip, args, kw, st, node):
         if isinstance(v, SObj) and '__idx' in v.fields:
             return v.fields['__idx']
     raise EngineError('idx_of: value was not taken from a symbolic list')
+
+
+@intrinsic(rt.is_nan)
+def _is_nan(ip, args, kw, st, node):
+    from .values import SOpaque
+    return isinstance(args[0], SOpaque) and args[0].tag == 'float:nan'
+
+
+SPEC_NS['is_nan'] = rt.is_nan
